@@ -142,6 +142,14 @@ Proof.
   eapply polite_trans; eassumption.
 Qed.
 
+Lemma polite_skip_gap c : forall fuel gap s, polite c s (skip_gap fuel gap s).
+Proof.
+  induction fuel as [|fu IH]; intros gap s; [apply polite_refl|].
+  cbn [skip_gap]. destruct (gap >? 0); [|apply polite_refl].
+  pose proof (polite_read c gap s) as Q. destruct (s_read gap s) as [d s1]. cbn [snd] in Q.
+  destruct (len d =? 0); [exact Q|]. eapply polite_trans; [exact Q|apply IH].
+Qed.
+
 Lemma polite_finish_evlrs c rh s : polite c s (snd (finish_evlrs c rh s)).
 Proof.
   unfold finish_evlrs.
@@ -149,8 +157,10 @@ Proof.
   - destruct (s_can_seek_spec c s) as (A1 & A2 & _). destruct (s_can_seek c s) as [sk s1]. cbn [fst snd] in A1, A2. subst sk.
     destruct (can_seek c).
     + eapply polite_trans; [exact A2|]. apply polite_hdr_read_evlrs.
-    + pose proof (polite_sread_vlrs c (Z.to_nat (h_nev rh)) s1) as Q. destruct (sread_vlrs (Z.to_nat (h_nev rh)) s1) as [r s2].
-      cbn [snd] in *. eapply polite_trans; eassumption.
+    + pose proof (polite_skip_gap c skip_fuel (evlr_gap rh) s1) as Qg.
+      pose proof (polite_sread_vlrs c (Z.to_nat (h_nev rh)) (skip_gap skip_fuel (evlr_gap rh) s1)) as Q.
+      destruct (sread_vlrs (Z.to_nat (h_nev rh)) (skip_gap skip_fuel (evlr_gap rh) s1)) as [r s2].
+      cbn [snd] in *. eapply polite_trans; [exact A2|]. eapply polite_trans; eassumption.
   - destruct ((h_minor rh >=? 4) && is_none (rh_evlrs rh)); apply polite_refl.
 Qed.
 
@@ -940,8 +950,48 @@ Proof.
   - exists s1. split; [exact B|]. right. exists er. split; assumption.
 Qed.
 
+(* skipping the gap: the bytes, or what is left of the data, are dropped; two reads at most on the sources of the model *)
+Lemma skip_gap_spec gap s : 0 <= st_pos s ->
+  let s' := skip_gap skip_fuel gap s in
+  st_bytes s' = st_bytes s /\ 0 <= st_pos s' /\ avail s' = skipn (Z.to_nat gap) (avail s).
+Proof.
+  intros Hp. cbv zeta. unfold skip_fuel. cbn [skip_gap].
+  destruct (gap >? 0) eqn:Eg; [|replace (Z.to_nat gap) with 0%nat by lia; repeat split; auto].
+  destruct (s_read_spec gap s ltac:(lia) Hp) as (A1 & A2 & A3 & A4).
+  destruct (s_read gap s) as [d s1]. cbn [fst snd] in A1, A2, A3, A4.
+  assert (Hd : length d = Nat.min (Z.to_nat gap) (length (avail s))) by (rewrite A1; apply firstn_length).
+  destruct (len d =? 0) eqn:Ed; [repeat split; assumption|].
+  destruct (gap - len d >? 0) eqn:Eg2; [|repeat split; assumption].
+  (* the first read was short: it took everything that was left, the second one gives nothing *)
+  assert (Hall : (length (avail s) < Z.to_nat gap)%nat) by (unfold len in *; lia).
+  assert (He : avail s1 = []) by (rewrite A2; apply skipn_all2; lia).
+  destruct (s_read_spec (gap - len d) s1 ltac:(lia) A4) as (B1 & B2 & B3 & B4).
+  destruct (s_read (gap - len d) s1) as [d2 s2]. cbn [fst snd] in B1, B2, B3, B4.
+  assert (d2 = []) as -> by (rewrite B1, He; apply firstn_nil).
+  cbn [len length Z.of_nat Z.eqb]. unfold len. cbn [length Z.of_nat Z.eqb].
+  split; [congruence|]. split; [exact B4|]. rewrite B2, He, skipn_nil. symmetry. apply skipn_all2. lia.
+Qed.
+
+(* more turns change nothing *)
+Lemma skip_gap_fuel k gap s : 0 <= st_pos s -> skip_gap (skip_fuel + k) gap s = skip_gap skip_fuel gap s.
+Proof.
+  intros Hp. unfold skip_fuel. cbn [Nat.add skip_gap].
+  destruct (gap >? 0) eqn:Eg; [|reflexivity].
+  destruct (s_read_spec gap s ltac:(lia) Hp) as (A1 & A2 & A3 & A4).
+  destruct (s_read gap s) as [d s1]. cbn [fst snd] in A1, A2, A3, A4.
+  assert (Hd : length d = Nat.min (Z.to_nat gap) (length (avail s))) by (rewrite A1; apply firstn_length).
+  destruct (len d =? 0) eqn:Ed; [reflexivity|].
+  destruct (gap - len d >? 0) eqn:Eg2; [|reflexivity].
+  assert (Hall : (length (avail s) < Z.to_nat gap)%nat) by (unfold len in *; lia).
+  assert (He : avail s1 = []) by (rewrite A2; apply skipn_all2; lia).
+  destruct (s_read_spec (gap - len d) s1 ltac:(lia) A4) as (B1 & _).
+  destruct (s_read (gap - len d) s1) as [d2 s2]. cbn [fst] in B1.
+  assert (d2 = []) as -> by (rewrite B1, He; apply firstn_nil).
+  reflexivity.
+Qed.
+
 Lemma finish_evlrs_spec c f rh rh1 s : openable f rh ->
-  (can_seek c = true \/ (h_minor rh >= 4 -> h_nev rh > 0 -> avail s = skipn (Z.to_nat (h_evstart rh)) f)) ->
+  (can_seek c = true \/ (h_minor rh >= 4 -> h_nev rh > 0 -> skipn (Z.to_nat (evlr_gap rh)) (avail s) = skipn (Z.to_nat (h_evstart rh)) f)) ->
   st_bytes s = f -> 0 <= st_pos s ->
   (rh1 = rh \/ exists ev, evlrs_of f rh = Ok ev /\ rh1 = with_evlrs rh ev) ->
   match evlrs_of f rh with
@@ -963,10 +1013,12 @@ Proof.
            ++ destruct Hs as (s' & E & _). exists s'. exact E.
         -- destruct Hcase as [Hc'|Hadj]; [congruence|].
            specialize (Hadj ltac:(lia) ltac:(lia)).
-           destruct (sread_vlrs_spec (Z.to_nat (h_nev rh)) s1 ltac:(lia) ltac:(rewrite A3, Hb; exact Hok)) as [V1 _].
+           destruct (skip_gap_spec (evlr_gap rh) s1 ltac:(lia)) as (G1 & G2 & G3). cbv zeta in G1, G2, G3.
+           set (sg := skip_gap skip_fuel (evlr_gap rh) s1) in *.
+           destruct (sread_vlrs_spec (Z.to_nat (h_nev rh)) sg G2 ltac:(rewrite G1, A3, Hb; exact Hok)) as [V1 _].
            assert (avail s1 = avail s) as Hav by (unfold avail; now rewrite A3, A4).
-           destruct (sread_vlrs (Z.to_nat (h_nev rh)) s1) as [r s2].
-           cbn [fst] in V1. rewrite Hav, Hadj in V1. rewrite V1.
+           destruct (sread_vlrs (Z.to_nat (h_nev rh)) sg) as [r s2].
+           cbn [fst] in V1. rewrite G3, Hav, Hadj in V1. rewrite V1.
            unfold evlrs_of. rewrite E4, En.
            destruct (dec_vlrs true (Z.to_nat (h_nev rh)) (skipn (Z.to_nat (h_evstart rh)) f)) as [[l rest]|er]; eexists; reflexivity.
       * unfold evlrs_of. rewrite E4, En. eexists. reflexivity.
@@ -1041,7 +1093,18 @@ Proof.
 Qed.
 
 (* whatever the capabilities, the EVLR timing and the way the reader is consumed: what is read is what read_file reads *)
-Theorem read_via_spec : forall c e steps f rh, laid_out f rh -> (can_seek c = true \/ evlrs_adjacent rh) ->
+Lemma adjacent_after_points rh : evlrs_adjacent rh -> evlrs_after_points rh.
+Proof. intros H H4 Hn. rewrite (H H4 Hn). lia. Qed.
+
+(* the gap the source computes, for a header that was decoded: the count is not negative *)
+Lemma evlr_gap_val f b rh : dec_header f b = Ok rh -> bytes_ok f = true ->
+  evlr_gap rh = h_evstart rh - (rh_offset rh + Z.max 0 (h_count rh) * rh_psize rh).
+Proof.
+  intros Hd Hok. unfold evlr_gap, gen_evlr_gap.
+  assert (0 <= h_count rh) by (apply (header_int_nonneg f b); auto). rewrite Z.max_r by lia. lia.
+Qed.
+
+Theorem read_via_spec_gap : forall c e steps f rh, laid_out f rh -> (can_seek c = true \/ evlrs_after_points rh) ->
   fst (read_via c e steps f) = read_file f.
 Proof.
   intros c e steps f rh Hlo Hcase. pose proof (laid_out_openable f rh Hlo) as Hop.
@@ -1049,11 +1112,22 @@ Proof.
   rewrite (read_file_spec f rh R tail Hlo HF HR Hsk).
   destruct (open_reader_spec c e f rh Hop) as (s1 & B1 & [(rh1 & E1 & P1 & Hrh1)|(er & E1 & Hev)]).
   - destruct (read_via_points c e steps f rh rh1 s1 R tail Hop HF ltac:(lia) (or_introl HR) Hsk E1 B1 P1 Hrh1) as (_ & _ & s3 & B3 & P3 & Ha3 & ->).
-    assert (can_seek c = true \/ (h_minor rh >= 4 -> h_nev rh > 0 -> avail s3 = skipn (Z.to_nat (h_evstart rh)) f)) as Hcase'.
-    { destruct Hcase as [H|Hadj]; [left; exact H|right]. intros H4 Hn. rewrite Ha3, Htail, (Hadj H4 Hn). reflexivity. }
+    assert (can_seek c = true \/ (h_minor rh >= 4 -> h_nev rh > 0 ->
+              skipn (Z.to_nat (evlr_gap rh)) (avail s3) = skipn (Z.to_nat (h_evstart rh)) f)) as Hcase'.
+    { destruct Hcase as [H|Haft]; [left; exact H|right]. intros H4 Hn. specialize (Haft H4 Hn).
+      pose proof Hlo as (Hd & Hok & _ & Hps & _). destruct (dec_header_offset _ _ _ Hd) as [_ Hoff].
+      rewrite Ha3, Htail, (evlr_gap_val f false rh Hd Hok).
+      rewrite skipn_skipn_Z by nia. f_equal. f_equal. lia. }
     pose proof (finish_evlrs_spec c f rh rh1 s3 Hop Hcase' B3 P3 Hrh1) as Hfin.
     destruct (evlrs_of f rh) as [ev|er]; destruct Hfin as (s4 & E4); rewrite E4; reflexivity.
   - unfold read_via. rewrite E1, Hev. reflexivity.
+Qed.
+Print Assumptions read_via_spec_gap.
+
+Theorem read_via_spec : forall c e steps f rh, laid_out f rh -> (can_seek c = true \/ evlrs_adjacent rh) ->
+  fst (read_via c e steps f) = read_file f.
+Proof.
+  intros c e steps f rh Hlo [H|H]; apply (read_via_spec_gap c e steps f rh Hlo); [left; exact H|right; now apply adjacent_after_points].
 Qed.
 Print Assumptions read_via_spec.
 
@@ -1084,8 +1158,9 @@ Proof.
   assert (skipn (Z.to_nat (rh_offset rh)) f = concat R ++ []) as Hsk by (rewrite app_nil_r, C1; reflexivity).
   destruct (open_reader_spec c e f rh Hop) as (s1 & B1 & [(rh1 & E1 & P1 & Hrh1)|(er & E1 & Hev)]).
   - destruct (read_via_points c e steps f rh rh1 s1 R [] Hop C2 ltac:(lia) (or_intror eq_refl) Hsk E1 B1 P1 Hrh1) as (_ & _ & s3 & B3 & P3 & Ha3 & ->).
-    assert (can_seek c = true \/ (h_minor rh >= 4 -> h_nev rh > 0 -> avail s3 = skipn (Z.to_nat (h_evstart rh)) f)) as Hcase'.
-    { destruct Hcase as [H|Hend]; [left; exact H|right]. intros H4 Hn. rewrite Ha3. symmetry. apply skipn_all2.
+    assert (can_seek c = true \/ (h_minor rh >= 4 -> h_nev rh > 0 ->
+              skipn (Z.to_nat (evlr_gap rh)) (avail s3) = skipn (Z.to_nat (h_evstart rh)) f)) as Hcase'.
+    { destruct Hcase as [H|Hend]; [left; exact H|right]. intros H4 Hn. rewrite Ha3, skipn_nil. symmetry. apply skipn_all2.
       specialize (Hend H4 Hn). unfold len in Hend. lia. }
     pose proof (finish_evlrs_spec c f rh rh1 s3 Hop Hcase' B3 P3 Hrh1) as Hfin.
     destruct (evlrs_of f rh) as [ev|er]; destruct Hfin as (s4 & E4); rewrite E4; reflexivity.
@@ -1168,6 +1243,26 @@ Proof.
 Qed.
 Print Assumptions access_path_independent.
 
+(* ... also when bytes lie between the last point and the first EVLR: a source that cannot seek reads and drops them *)
+Theorem access_path_independent_gap : forall f rh c c' e e' k k', laid_out f rh -> evlrs_after_points rh ->
+  fst (read_via c e k f) = fst (read_via c' e' k' f).
+Proof.
+  intros f rh c c' e e' k k' Hlo Haft.
+  rewrite (read_via_spec_gap c e k f rh Hlo (or_intror Haft)), (read_via_spec_gap c' e' k' f rh Hlo (or_intror Haft)). reflexivity.
+Qed.
+Print Assumptions access_path_independent_gap.
+
+(* the gap as the source computes it, and that two turns of its skipping loop are all the sources of the model need *)
+Lemma gap_expression : forall evstart offset count psize, gen_evlr_gap evstart offset count psize = evstart - (offset + count * psize).
+Proof. reflexivity. Qed.
+Lemma gap_skipped : forall k gap s, 0 <= st_pos s ->
+  skip_gap (skip_fuel + k) gap s = skip_gap skip_fuel gap s
+  /\ st_bytes (skip_gap skip_fuel gap s) = st_bytes s
+  /\ avail (skip_gap skip_fuel gap s) = skipn (Z.to_nat gap) (avail s).
+Proof.
+  intros k gap s Hp. split; [now apply skip_gap_fuel|]. destruct (skip_gap_spec gap s Hp) as (A & _ & B). split; assumption.
+Qed.
+
 (* a source that can seek finds the EVLRs wherever they are (a gap after the last point is fine) *)
 Theorem seekable_any_layout : forall f rh c c' e e' k k', laid_out f rh -> can_seek c = true -> can_seek c' = true ->
   fst (read_via c e k f) = fst (read_via c' e' k' f) /\ fst (read_via c e k f) = read_file f.
@@ -1188,12 +1283,12 @@ Proof.
   destruct o; cbn [offered] in Ho; unfold can_seek in Ho; rewrite ?Hs, ?Hr in Ho; cbn in Ho; congruence.
 Qed.
 
-Theorem bare_source_reads_the_file : forall c e steps f rh, laid_out f rh -> evlrs_adjacent rh ->
+Theorem bare_source_reads_the_file : forall c e steps f rh, laid_out f rh -> evlrs_after_points rh ->
   c_has_seekable c = false -> c_readinto c = false ->
   fst (read_via c e steps f) = read_file f /\ only_reads (snd (read_via c e steps f)) = true
   /\ only_reads (snd (consume_via c e steps f)) = true.
 Proof.
-  intros c e steps f rh Hlo Hadj Hs Hr. split; [apply (read_via_spec c e steps f rh Hlo (or_intror Hadj))|].
+  intros c e steps f rh Hlo Hadj Hs Hr. split; [apply (read_via_spec_gap c e steps f rh Hlo (or_intror Hadj))|].
   split; apply (offered_bare c); auto using only_what_is_offered, only_what_is_offered_consume.
 Qed.
 Print Assumptions bare_source_reads_the_file.
@@ -1229,6 +1324,15 @@ Proof.
   intros f rh c e k Hlo Hadj. rewrite (read_via_spec c e k f rh Hlo (or_intror Hadj)).
   apply (read_mmap_spec f rh Hlo). now apply adjacent_in_file.
 Qed.
+
+Theorem mmap_same_as_streams_gap : forall f rh c e k, laid_out f rh -> evlrs_after_points rh ->
+  (h_minor rh >= 4 -> h_nev rh > 0 -> h_evstart rh <= len f) ->
+  read_mmap f = fst (read_via c e k f).
+Proof.
+  intros f rh c e k Hlo Haft Hin. rewrite (read_via_spec_gap c e k f rh Hlo (or_intror Haft)).
+  apply (read_mmap_spec f rh Hlo Hin).
+Qed.
+Print Assumptions mmap_same_as_streams_gap.
 Print Assumptions mmap_same_as_streams.
 
 (* ---- write_at inside a file ---- *)
